@@ -26,32 +26,32 @@ func NewDefaultMonitorSelect() *MonitorSelect {
 }
 
 // Initial returns whether or not an initial response will be sent
-func (m MonitorSelect) Initial() bool {
-	if m.initial == nil {
+func (m *MonitorSelect) Initial() bool {
+	if m == nil || m.initial == nil {
 		return true
 	}
 	return *m.initial
 }
 
 // Insert returns whether we will receive updates for inserts
-func (m MonitorSelect) Insert() bool {
-	if m.insert == nil {
+func (m *MonitorSelect) Insert() bool {
+	if m == nil || m.insert == nil {
 		return true
 	}
 	return *m.insert
 }
 
 // Delete returns whether we will receive updates for deletions
-func (m MonitorSelect) Delete() bool {
-	if m.delete == nil {
+func (m *MonitorSelect) Delete() bool {
+	if m == nil || m.delete == nil {
 		return true
 	}
 	return *m.delete
 }
 
 // Modify returns whether we will receive updates for modifications
-func (m MonitorSelect) Modify() bool {
-	if m.modify == nil {
+func (m *MonitorSelect) Modify() bool {
+	if m == nil || m.modify == nil {
 		return true
 	}
 	return *m.modify
